@@ -71,7 +71,7 @@ func loopsOver(info *types.Info, body ast.Node, isSrc func(src ast.Expr) bool) [
 
 func init() {
 	prop("C07",
-		"(a,b) point lookups that stop at the first hit visit memtables and level-0 tables newest first; (c) Get/ScanPrefix read the memtables before capturing the level list (data only moves memtable -> SST); (d) the flush task swaps the level list, dequeues the flushed memtables and truncates the WAL in one db.mu critical section, applying the change set to the current level list; (e) DB.sstables and memtable.List.tables are accessed under their locks; (f) tombstones survive until after the last merge of a scan; (g) the merge keeps the entry with the larger sequence number and orders by key; (h) the unique binary search uses one consistent interval convention; (i) table range predicates equal closed-interval membership; (j) every write takes a strictly larger sequence number.",
+		"(a,b) point lookups that stop at the first hit visit memtables and level-0 tables newest first; (c) Get/ScanPrefix read the memtables before capturing the level list (data only moves memtable -> SST); (d) the flush task swaps the level list, dequeues the flushed memtables and truncates the WAL in one db.mu critical section, applying the change set to the current level list; (e) DB.sstables and memtable.List.tables are accessed under their locks; (f) tombstones survive until after the last merge of a scan; (g) the merge keeps the entry with the larger sequence number and orders by key; (h) the unique binary search uses one consistent interval convention; (i) table range predicates equal closed-interval membership; (j) every write takes a strictly larger sequence number; (v) the entries an SST reader hands out carry the record's key, sequence number and value, and are marked deleted exactly when they carry no value.",
 		"the k-way merge / heap implementation itself; bloom filter and footer loading under concurrency; equality with a reference map over histories.")
 
 	register(&Obligation{ID: "C07.a", Props: []string{"C07", "C03"}, Template: "first-hit-direction",
